@@ -68,6 +68,10 @@ type ChanData struct {
 	closed bool
 	buf    []Value
 	cap    int
+	// happens-before bookkeeping (threads.go): the producer release event each
+	// queued value / the close stands for; 0 = not sent by the producer
+	rel       []int
+	closedRel int
 }
 
 // Thread is a suspended goroutine (see threads.go).
@@ -131,6 +135,7 @@ type State struct {
 	ctxChans map[int]bool // channels returned by ctx.Done()
 	wgCount  map[int]int
 	assumedDone map[int]bool
+	hb       *hbState // happens-before bookkeeping once a goroutine was sequentialised
 }
 
 func (st *State) clone() *State {
@@ -162,6 +167,7 @@ func (st *State) clone() *State {
 	n.ctxChans = st.ctxChans
 	n.wgCount = st.wgCount
 	n.assumedDone = st.assumedDone
+	n.hb = st.hb
 	if st.ghost != nil {
 		n.ghost = map[string]int{}
 		for k, v := range st.ghost {
@@ -390,12 +396,18 @@ func (ex *Exec) load(st *State, p Ptr) Value {
 	if p.obj == 0 {
 		unsup("load through nil pointer (missing obligation)")
 	}
+	if st.hb != nil {
+		ex.hbAccess(st, p, false)
+	}
 	return ex.loadPath(st.obj(p.obj).val, p.path)
 }
 
 func (ex *Exec) store(st *State, p Ptr, v Value) {
 	if p.obj == 0 {
 		unsup("store through nil pointer (missing obligation)")
+	}
+	if st.hb != nil {
+		ex.hbAccess(st, p, true)
 	}
 	o := st.mut(p.obj)
 	o.val = ex.storePath(o.val, p.path, v)
